@@ -337,10 +337,24 @@ func genHistory(t *Tape, k *Knobs, m mix, n int) []Step {
 		case 13: // device flow: authz / decide / poll
 			switch {
 			case devs == 0 || t.Chance(25):
-				steps = append(steps, st("device_authz", t.Intn(nc), 0, "scope", pickScopes(t, 40, 70)))
+				kv := []string{"scope", pickScopes(t, 40, 70)}
+				if a := pickAud(t); a != "" {
+					kv = append(kv, "aud", a)
+				}
+				steps = append(steps, st("device_authz", t.Intn(nc), 0, kv...))
 				devs++
 			case t.Chance(40):
-				steps = append(steps, Step{Op: "device_decide", G: t.Intn(devs * 2), V: t.Pick([]string{"accept", "accept", "accept", "reject"})})
+				d := Step{Op: "device_decide", G: t.Intn(devs * 2), V: t.Pick([]string{"accept", "accept", "accept", "reject"})}
+				if t.Chance(25) { // partial consent on the verification page
+					d.P = map[string]string{}
+					if t.Bool() {
+						d.P["grant_first"] = fmt.Sprint(t.Intn(3))
+					}
+					if t.Bool() {
+						d.P["aud_first"] = fmt.Sprint(t.Intn(3))
+					}
+				}
+				steps = append(steps, d)
 			default:
 				s := Step{Op: "device_token", C: -1, G: t.Intn(devs * 2)}
 				if t.Chance(15) {
@@ -448,6 +462,12 @@ type Profile struct {
 // crash or a transaction failure at a random storage call; the rest of the history runs fault-free, so that the "faults stop
 // => the system converges" rules (reconverged, fail-closed, retry after a clean rollback) get material in ARBITRARY histories,
 // not only in the fixed flows that C18 enumerates.
+var faultCalls = []string{"GetClient", "GetAuthorizeCodeSession", "InvalidateAuthorizeCodeSession", "GetPKCERequestSession", "DeletePKCERequestSession",
+	"GetOpenIDConnectSession", "DeleteOpenIDConnectSession", "CreateAccessTokenSession", "CreateRefreshTokenSession", "GetRefreshTokenSession",
+	"RotateRefreshToken", "RevokeRefreshToken", "RevokeAccessToken", "DeleteRefreshTokenSession", "DeleteAccessTokenSession", "GetAccessTokenSession",
+	"GetDeviceCodeSession", "InvalidateDeviceCodeSession", "GetPARSession", "DeletePARSession", "CreateAuthorizeCodeSession", "CreateOpenIDConnectSession",
+	"CreatePKCERequestSession", "ClientAssertionJWTValid", "SetClientAssertionJWT"}
+
 func sprinkleFaults(t *Tape, steps []Step, pct int) []Step {
 	kinds := append(append([]string{}, c18Kinds...), c18TxKinds...)
 	for i := range steps {
@@ -455,6 +475,12 @@ func sprinkleFaults(t *Tape, steps []Step, pct int) []Step {
 		case "redeem", "refresh", "device_token", "revoke", "authz_par":
 			if t.Chance(pct) {
 				steps[i].F = &FaultSpec{Kind: t.Pick(kinds), At: t.Intn(9)}
+				if t.Chance(35) {
+					// aim at a named storage call (its first occurrence in the request) instead of a call index: long flows have
+					// more than nine calls and the interesting ones (PKCE / OpenID session, second revocation step) sit late
+					steps[i].F.At = -1
+					steps[i].F.Call = t.Pick(faultCalls)
+				}
 			}
 		}
 	}
@@ -577,12 +603,38 @@ func init() {
 	recov("c16f", "c16", 10, nil)
 	recov("c17f", "c17", 15, []string{"plain", "plain", "tx"})
 	recov("c02f", "c02", 10, nil)
+	recov("c03f", "c03", 12, nil)
 	recov("c05f", "c05", 8, nil)
 	recov("c07f", "c07", 8, nil)
 	recov("c08f", "c08", 10, nil)
 
+	// C13 through the pushed-authorization path: the state of the PUSHED request is echoed on success and on every redirected
+	// error (expired or foreign request_uri, refused consent, a storage failure while the pushed request is consumed)
+	reg(&Profile{Name: "c13par", Prop: "C13", Gen: func(t *Tape) *Plan {
+		p := Profiles["c17"].Gen(t)
+		p.Profile, p.Prop = "c13par", "C13"
+		for i := range p.Steps {
+			s := &p.Steps[i]
+			if s.Op != "authz_par" {
+				continue
+			}
+			if s.P == nil {
+				s.P = map[string]string{}
+			}
+			switch t.Intn(6) {
+			case 0:
+				s.C = t.Intn(len(p.K.Clients))
+			case 1:
+				s.F = &FaultSpec{Kind: t.Pick([]string{"store-err", "store-err", "lost-ack", "store-notfound"}), At: -1, Call: t.Pick([]string{"DeletePARSession", "GetPARSession", "CreateAuthorizeCodeSession"})}
+			case 2:
+				s.P["deny"] = "1"
+			}
+		}
+		return p
+	}})
+
 	regProp(&PropSpec{ID: "C02", Profiles: []string{"c02", "c02f"}, Characteristic: []string{"redeem-foreign-client", "redeem-redirect-mismatch"}})
-	regProp(&PropSpec{ID: "C03", Profiles: []string{"c03"}, Characteristic: []string{"pkce-bad-verifier"}})
+	regProp(&PropSpec{ID: "C03", Profiles: []string{"c03", "c03f"}, Characteristic: []string{"pkce-bad-verifier"}})
 	regProp(&PropSpec{ID: "C04", Profiles: []string{"c04", "c04f"}, Characteristic: []string{"rt-reuse"}})
 	regProp(&PropSpec{ID: "C05", Profiles: []string{"c05", "c05f"}, Characteristic: []string{"refresh-foreign-client", "refresh-registration-narrowed"}})
 	regProp(&PropSpec{ID: "C07", Profiles: []string{"c07", "c07f"}, Characteristic: []string{"boundary:"}})
